@@ -10,6 +10,8 @@
 //!           typed getters through the batch / a child / the parent / the plain store on two threads
 //!   selfiter  a batch started while the CALLING thread holds an open iterator and a resize is due
 //!           (every outcome of the "transactions are open" branch of maybe_resize), then growth
+//!   inflight  reads of every kind demonstrably inside their read transaction while batch() is at the threshold
+//!   handles several Store handles on one environment; the handle that did not commit last writes the big batch
 //!   growth  growth through many resizes (more than 10 allocation chunks), fixed and random batch sizes
 //!   frag    fragmented free space (deletes / overwrites of a large share of the data) followed by
 //!           growth with multi-page values: resizes must come in time, no put / commit may fail
@@ -4190,6 +4192,531 @@ fn mode_growth(work: &str, seed: u64, thorough: bool) {
 	}
 }
 
+
+// ---------------------------------------------------------------------------------------------
+// mode inflight: which operations count as open transactions for the resize.  For every kind of
+// store-level read - `Store::get_ser` without and with a deserialisation mode (both through
+// `get_with`), `Store::iter` (its deserialisation callback), a read through a `Batch`, and `exists`
+// (which offers no hook to stall in: three threads spinning on it) - a read that is demonstrably
+// still inside its read transaction (the `Readable` impl / the iterator callback signals and sleeps
+// 250 ms) while this thread's `batch()` finds the environment above its resize threshold with
+// nothing else open.  Oracle: the map is enlarged, `batch()` returned only AFTER the read's
+// callback had finished (timestamp taken by the reader), the read returned the committed value,
+// nothing crashes or fails.
+// ---------------------------------------------------------------------------------------------
+static SLOW: std::sync::Mutex<Option<(mpsc::Sender<()>, u64)>> = std::sync::Mutex::new(None);
+static SLOW_END: std::sync::Mutex<Option<Instant>> = std::sync::Mutex::new(None);
+
+/// called from inside a read transaction of the store: signal, stay inside, note when leaving
+fn slow_point() {
+	let cfg = SLOW.lock().unwrap().take();
+	if let Some((tx, ms)) = cfg {
+		let _ = tx.send(());
+		thread::sleep(Duration::from_millis(ms));
+		*SLOW_END.lock().unwrap() = Some(Instant::now());
+	}
+}
+
+struct SlowRec(Rec);
+impl Readable for SlowRec {
+	fn read<R: Reader>(r: &mut R) -> Result<SlowRec, ser::Error> {
+		let rec = Rec::read(r)?;
+		slow_point();
+		Ok(SlowRec(rec))
+	}
+}
+
+fn mode_inflight(work: &str, seed: u64, thorough: bool) {
+	let kinds = ["get_ser", "get_ser_mode", "iter", "batch_get", "exists_spin"];
+	let rounds = if thorough { 3 } else { 1 };
+	let mut tot_wait: Vec<String> = vec![];
+	for round in 0..rounds {
+		for (ki, kind) in kinds.iter().enumerate() {
+			let dir = format!("{}/inflight{}_{}", work, round, ki);
+			let mut cx = Cx::new(&dir, seed ^ ((round * 8 + ki) as u64 * 0x1f));
+			let store = cx.store();
+			// the target of the reads, and a small database to iterate
+			let tag = 7000 + (round * 10 + ki) as u64;
+			let body = cx.rng.bytes(20);
+			{
+				let mut b = store.batch().unwrap();
+				cx.sh.stack.push(vec![]);
+				cx.line("kv begin", "ok");
+				let rec = Rec { tag, body: body.clone() };
+				let ans = fmt_unit(b.put_ser(Some(b'A'), b"slow", &rec));
+				cx.sh.write((db_id(Some(b'A')), b"slow".to_vec()), Some(ser::ser_vec(&rec, b.protocol_version()).unwrap()));
+				cx.line(&format!("kv putser 65 {} {} {}", hex(b"slow"), tag, hex(&body)), &ans);
+				for i in 0..4u8 {
+					let k = vec![b'i', i];
+					let v = vec![i; 10];
+					let ans = fmt_unit(b.put(Some(b'B'), &k, &v));
+					cx.sh.write((db_id(Some(b'B')), k.clone()), Some(v.clone()));
+					cx.line(&format!("kv put 66 {} {}", hex(&k), valtok(&v)), &ans);
+				}
+				let ans = fmt_unit(b.commit());
+				cx.sh.commit();
+				cx.line("kv commit", &ans);
+			}
+			// fill above the threshold
+			let mut n = 0u64;
+			loop {
+				let m = meta_info(&dir).unwrap_or((1, 0, 0));
+				if m.1 * 4096 * 10 > 9 * m.0 || n > 60 {
+					break;
+				}
+				let mut b = store.batch().unwrap();
+				cx.sh.stack.push(vec![]);
+				cx.line("kv begin", "ok");
+				let k = format!("fill{:03}", n).into_bytes();
+				let v = vec![n as u8; 60_000];
+				let ans = fmt_unit(b.put(Some(b'Z'), &k, &v));
+				cx.sh.write((db_id(Some(b'Z')), k.clone()), Some(v.clone()));
+				cx.line(&format!("kv put 90 {} {}", hex(&k), valtok(&v)), &ans);
+				let ans = fmt_unit(b.commit());
+				cx.sh.commit();
+				cx.line("kv commit", &ans);
+				n += 1;
+			}
+			let pre = meta_info(&dir).unwrap_or((0, 0, 0));
+			cx.line(&format!("kv rz-new {} {}", pre.0, 1_048_576), "ok");
+			let want_rec = format!("rec:{}:{}", tag, showval(&body));
+			*SLOW_END.lock().unwrap() = None;
+			let (itx, irx) = mpsc::channel::<()>();
+			let (rtx, rrx) = mpsc::channel::<Vec<(String, String)>>();
+			let spin_stop = Arc::new(std::sync::atomic::AtomicBool::new(false));
+			let mut spinners = vec![];
+			if *kind == "exists_spin" {
+				for _ in 0..3 {
+					let store = store.clone();
+					let stop = spin_stop.clone();
+					let rtx = rtx.clone();
+					spinners.push(thread::spawn(move || {
+						global::set_local_chain_type(ChainTypes::AutomatedTesting);
+						let (mut ok, mut bad) = (0u64, 0u64);
+						while !stop.load(std::sync::atomic::Ordering::SeqCst) {
+							match store.exists(Some(b'A'), b"slow") {
+								Ok(true) => ok += 1,
+								_ => bad += 1,
+							}
+						}
+						let _ = rtx.send(vec![("spin".to_string(), format!("{}:{}", ok, bad))]);
+					}));
+				}
+				thread::sleep(Duration::from_millis(30));
+			} else {
+				*SLOW.lock().unwrap() = Some((itx.clone(), 250));
+				let store = store.clone();
+				let kind_s = kind.to_string();
+				let rtx = rtx.clone();
+				thread::spawn(move || {
+					let kind = kind_s;
+					global::set_local_chain_type(ChainTypes::AutomatedTesting);
+					let r = std::panic::catch_unwind(std::panic::AssertUnwindSafe(|| -> Vec<(String, String)> {
+						let fm = |r: Result<Option<SlowRec>, Error>| fmt_rec(r.map(|o| o.map(|s| s.0)));
+						match kind.as_str() {
+							"get_ser" => vec![("kv read-outside t1 getrec 65 736c6f77".to_string(), fm(store.get_ser::<SlowRec>(Some(b'A'), b"slow", None)))],
+							"get_ser_mode" => vec![(
+								"kv read-outside t1 getrec 65 736c6f77".to_string(),
+								fm(store.get_ser::<SlowRec>(Some(b'A'), b"slow", Some(ser::DeserializationMode::SkipPow))),
+							)],
+							"iter" => {
+								let it = store.iter(Some(b'B'), |k, v| {
+									if k == [b'i', 2] {
+										slow_point();
+									}
+									Ok((k.to_vec(), v.to_vec()))
+								});
+								vec![("kv read-outside t1 iter 66".to_string(), fmt_iter(&collect_iter(it)))]
+							}
+							_ => match store.batch() {
+								Ok(b) => {
+									let a = fm(b.get_ser::<SlowRec>(Some(b'A'), b"slow", None));
+									drop(b);
+									vec![("kv begin".to_string(), "ok".to_string()), ("kv getrec 65 736c6f77".to_string(), a), ("kv drop".to_string(), "ok".to_string())]
+								}
+								Err(_) => vec![("kv begin".to_string(), "err".to_string())],
+							},
+						}
+					}));
+					let _ = rtx.send(r.unwrap_or_else(|_| vec![("panic".to_string(), "panic".to_string())]));
+				});
+				if irx.recv_timeout(Duration::from_secs(5)).is_err() {
+					cx.oracle_fail(format!("inflight {}: the read never reached its deserialisation callback", kind));
+				}
+			}
+			// the read is inside its transaction now: batch() at the threshold
+			let t0 = Instant::now();
+			let bres = store.batch();
+			let t_ret = Instant::now();
+			let el = t0.elapsed().as_millis();
+			spin_stop.store(true, std::sync::atomic::Ordering::SeqCst);
+			// the reader's lines first (its transaction ended before this batch began)
+			let mut rlines: Vec<(String, String)> = vec![];
+			let expect = if *kind == "exists_spin" { 3 } else { 1 };
+			for _ in 0..expect {
+				match rrx.recv_timeout(Duration::from_secs(10)) {
+					Ok(v) => rlines.extend(v),
+					Err(_) => cx.oracle_fail(format!("inflight {}: the reading thread does not return", kind)),
+				}
+			}
+			for h in spinners {
+				let _ = h.join();
+			}
+			for (lhs, rhs) in rlines.iter() {
+				if lhs == "spin" {
+					let mut it = rhs.split(':');
+					let (ok, bad): (u64, u64) = (it.next().unwrap().parse().unwrap_or(0), it.next().unwrap().parse().unwrap_or(1));
+					if bad > 0 || ok == 0 {
+						cx.oracle_fail(format!("inflight exists_spin: {} exists calls answered true, {} failed or answered false across the resize", ok, bad));
+					}
+					cx.out.raw(&format!("#STAT inflight exists_spin: a spinning thread completed {} exists calls across the resize", ok));
+				} else if lhs == "panic" {
+					cx.oracle_fail(format!("inflight {}: the read panicked while the map was being enlarged", kind));
+				} else {
+					if lhs.contains("getrec") && *rhs != want_rec {
+						cx.oracle_fail(format!("inflight {}: the read that was in flight during the resize returned {} but {} is committed", kind, rhs, want_rec));
+					}
+					if lhs.contains(" iter ") {
+						let want = fmt_items(&Shadow::items(&cx.sh.committed, Some(b'B')));
+						if *rhs != want {
+							cx.oracle_fail(format!("inflight iter: the iteration that was in flight during the resize yielded {} but {} is committed", rhs, want));
+						}
+					}
+					cx.line(lhs, rhs);
+				}
+			}
+			match bres {
+				Ok(mut b) => {
+					cx.sh.stack.push(vec![]);
+					cx.line("kv begin", "ok");
+					let v = vec![0x42u8; 30_000];
+					let ans = fmt_unit(b.put(Some(b'Z'), b"after", &v));
+					if ans != "ok" {
+						cx.oracle_fail(format!("inflight {}: put failed after the resize", kind));
+					} else {
+						cx.sh.write((db_id(Some(b'Z')), b"after".to_vec()), Some(v.clone()));
+					}
+					cx.line(&format!("kv put 90 {} {}", hex(b"after"), valtok(&v)), &ans);
+					let ans = fmt_unit(b.commit());
+					if ans != "ok" {
+						cx.oracle_fail(format!("inflight {}: commit failed after the resize", kind));
+						cx.sh.stack.pop();
+					} else {
+						cx.sh.commit();
+					}
+					cx.line("kv commit", &ans);
+				}
+				Err(e) => cx.oracle_fail(format!("inflight {}: Store::batch failed: {:?}", kind, e)),
+			}
+			let post = meta_info(&dir).unwrap_or((0, 0, 0));
+			let slow_end = *SLOW_END.lock().unwrap();
+			if post.0 <= pre.0 {
+				cx.oracle_fail(format!(
+					"inflight {}: usage {} of {} was above the threshold and only a {} was in flight, but the map was not enlarged by Store::batch()",
+					kind, pre.1 * 4096, pre.0, kind
+				));
+			} else if *kind != "exists_spin" {
+				match slow_end {
+					Some(te) if t_ret >= te => {}
+					Some(te) => cx.oracle_fail(format!(
+						"inflight {}: the map was enlarged ({} -> {}) by a Store::batch() that returned (after {} ms) {} ms BEFORE the {} in flight on another thread had left its read transaction: this read is not counted as an open transaction",
+						kind, pre.0, post.0, el, (te - t_ret).as_millis().max(1), kind
+					)),
+					None => cx.oracle_fail(format!("inflight {}: the read never finished its callback", kind)),
+				}
+			}
+			cx.line(&format!("kv rz-batch same=0 other=1 settled=1 used={}", pre.1 * 4096), &post.0.to_string());
+			cx.line("kv txseq 2 e1,q,l1,w,e0,l0", "completed:resizes=1");
+			cx.obs();
+			tot_wait.push(format!("{}:{}ms", kind, el));
+			cx.out.raw(&format!("#STAT inflight {}: Store::batch() at the threshold returned after {} ms; map {} -> {}", kind, el, pre.0, post.0));
+			cx.finish();
+		}
+	}
+	let mut out = Out::stdout();
+	out.raw(&format!("#STAT inflight total: overlaps {} ({})", tot_wait.len(), tot_wait.join(" ")));
+	out.flush();
+}
+
+// ---------------------------------------------------------------------------------------------
+// mode handles: several `Store` handles on ONE environment (all Stores opened on one root share
+// the env through ENV_MAP; the chain store and the peer store do this).  X (default names, prefixes
+// A B Z), Y (database name "peer", prefixes A and P: shares database A with X), Z (same names as
+// X), and a handle created late.  Per phase, on a fresh environment: X's most recent batch was
+// dropped / was read-only / X was idle through a resize done by Y / Z never wrote / the handle is
+// created only now - then Y's commits push the usage past the threshold and the other handle writes
+// a batch of 120 kB, more than the few percent left: it must succeed (its batch() has to resize,
+// whoever committed last).  Uncommitted writes of one handle are invisible through the others,
+// committed ones visible at once.  Finally all handles alternate through further resizes.
+// ---------------------------------------------------------------------------------------------
+struct Hs {
+	dir: String,
+	cur_map: u64,
+	grown: u64,
+	failed: u64,
+	n: u64,
+}
+
+fn h_tok(db: u16) -> String {
+	if db == 0 {
+		"def".to_string()
+	} else {
+		(db - 1).to_string()
+	}
+}
+
+/// one batch through handle `st` (named `hname`): writes, an optional look through another handle
+/// before the commit, commit / drop
+#[allow(clippy::too_many_arguments)]
+fn h_batch(cx: &mut Cx, hs: &mut Hs, hname: &str, st: &Store, ws: &[(u16, Db, Vec<u8>, Vec<u8>)], commit: bool, peek: Option<(&str, &Store)>, what: &str) -> bool {
+	hs.n += 1;
+	let pre = meta_info(&hs.dir);
+	let mut b = match st.batch() {
+		Ok(b) => b,
+		Err(e) => {
+			hs.failed += 1;
+			cx.oracle_fail(format!("handles {}: batch() of handle {} failed: {:?}", what, hname, e));
+			return false;
+		}
+	};
+	cx.sh.stack.push(vec![]);
+	cx.line("kv begin", "ok");
+	let mut ok = true;
+	for (mid, db, k, v) in ws {
+		let ans = fmt_unit(b.put(*db, k, v));
+		if ans != "ok" {
+			ok = false;
+			hs.failed += 1;
+			cx.oracle_fail(format!(
+				"handles {}: put of {} bytes through handle {} failed (meta before its batch {:?}, map in memory {}): no operation may fail for lack of space, whichever handle committed last",
+				what, v.len(), hname, pre, hs.cur_map
+			));
+		} else {
+			cx.sh.write((*mid, k.clone()), Some(v.clone()));
+		}
+		cx.line(&format!("kv put {} {} {}", h_tok(*mid), hex(k), valtok(v)), &ans);
+	}
+	if let (Some((pname, pst)), Some((mid, db, k, _))) = (peek, ws.first()) {
+		// uncommitted: not visible through the other handle
+		let ans = fmt_get(&pst.get_ser::<Vec<u8>>(*db, k, None));
+		let want = match cx.sh.committed.get(&(*mid, k.clone())) {
+			Some(v) => format!("some:{}", showval(v)),
+			None => "none".into(),
+		};
+		if ans != want {
+			cx.oracle_fail(format!("handles {}: handle {} sees {} for a key handle {} has written but not committed (committed: {})", what, pname, ans, hname, want));
+		}
+		cx.line(&format!("kv read-outside {} get {} {}", pname, h_tok(*mid), hex(k)), &ans);
+	}
+	if commit {
+		let ans = fmt_unit(b.commit());
+		if ans != "ok" {
+			ok = false;
+			hs.failed += 1;
+			cx.oracle_fail(format!("handles {}: commit through handle {} failed (meta before its batch {:?})", what, hname, pre));
+			cx.sh.stack.pop();
+		} else {
+			cx.sh.commit();
+		}
+		cx.line("kv commit", &ans);
+	} else {
+		drop(b);
+		cx.sh.stack.pop();
+		cx.line("kv drop", "ok");
+	}
+	if let (Some(pre), Some(post)) = (pre, meta_info(&hs.dir)) {
+		let wrote = post.2 != pre.2;
+		let used = pre.1 * 4096;
+		if wrote {
+			if post.0 > hs.cur_map {
+				hs.grown += 1;
+			} else if used * 10 > 9 * hs.cur_map && ok {
+				cx.oracle_fail(format!("handles {}: handle {}'s batch() found {} of {} bytes used (above the threshold, nothing open) but did not enlarge the map", what, hname, used, hs.cur_map));
+			}
+			cx.line(&format!("kv rz-batch same=0 other=0 settled=1 used={}", used), &post.0.to_string());
+			if pre.0 == hs.cur_map {
+				cx.line(&format!("kv needs-resize {} {} {}", pre.0, used, 1_048_576), &format!("{} {}", post.0 != pre.0, post.0));
+			}
+			hs.cur_map = post.0;
+		}
+	}
+	if let (true, Some((pname, pst)), Some((mid, db, k, v))) = (commit && ok, peek, ws.first()) {
+		// committed: visible through the other handle at once
+		let ans = fmt_get(&pst.get_ser::<Vec<u8>>(*db, k, None));
+		let want = format!("some:{}", showval(v));
+		if ans != want {
+			cx.oracle_fail(format!("handles {}: handle {} reads {} for a key handle {} has committed ({})", what, pname, ans, hname, want));
+		}
+		cx.line(&format!("kv read-outside {} get {} {}", pname, h_tok(*mid), hex(k)), &ans);
+	}
+	ok
+}
+
+fn mode_handles(work: &str, seed: u64, thorough: bool) {
+	const PEER_DEF: u16 = 1001; // model id of Y's default database ("peer")
+	let phases = ["x-dropped", "x-readonly", "x-idle-through-resize", "z-first-batch", "late-handle"];
+	let rounds = if thorough { 2 } else { 1 };
+	let mut summary: Vec<String> = vec![];
+	for round in 0..rounds {
+		for (pi, phase) in phases.iter().enumerate() {
+			let dir = format!("{}/handles{}_{}", work, round, pi);
+			global::set_local_chain_type(ChainTypes::AutomatedTesting);
+			let x = Store::new(&dir, None, None, DBS.to_vec(), None, None).expect("handle X");
+			let y = Store::new(&dir, None, Some("peer"), vec![b'A', b'P'], None, None).expect("handle Y");
+			let z = Store::new(&dir, None, None, DBS.to_vec(), None, None).expect("handle Z");
+			// a Cx for the output / shadow; its own store handle is a fourth one on the same environment
+			let mut cx = Cx {
+				out: Out::stdout(),
+				rng: Rng::new(seed ^ ((round * 8 + pi) as u64 * 0x3d)),
+				st: Stats::default(),
+				sh: Shadow::default(),
+				store: Some(Arc::new(Store::new(&dir, None, None, DBS.to_vec(), None, None).expect("handle R"))),
+				reader: ReaderT::spawn(Arc::new(Store::new(&dir, None, None, DBS.to_vec(), None, None).expect("handle T"))),
+				dir: dir.clone(),
+			};
+			cx.out.line("kv new [def,65,66,90,80,1000]", "ok");
+			let map0 = meta_info(&dir).map(|m| m.0).unwrap_or(1_048_576);
+			cx.line(&format!("kv rz-new {} {}", map0, 1_048_576), "ok");
+			let mut hs = Hs { dir: dir.clone(), cur_map: map0, grown: 0, failed: 0, n: 0 };
+			let what = format!("phase {}", phase);
+			let mut kn = 0u64;
+			let mut key = |p: &str| {
+				kn += 1;
+				format!("{}{:04}", p, kn).into_bytes()
+			};
+			// what X did last
+			match *phase {
+				"x-dropped" => {
+					h_batch(&mut cx, &mut hs, "X", &x, &[(db_id(Some(b'A')), Some(b'A'), key("xa"), vec![1u8; 2000])], true, Some(("Y", &y)), &what);
+					h_batch(&mut cx, &mut hs, "X", &x, &[(0, None, key("xd"), vec![2u8; 3000])], false, Some(("Z", &z)), &what);
+				}
+				"x-readonly" => {
+					h_batch(&mut cx, &mut hs, "X", &x, &[(db_id(Some(b'B')), Some(b'B'), key("xb"), vec![3u8; 2000])], true, Some(("Z", &z)), &what);
+					// a batch that only reads, committed
+					if let Ok(b) = x.batch() {
+						cx.sh.stack.push(vec![]);
+						cx.line("kv begin", "ok");
+						let a = fmt_bool(&b.exists(Some(b'B'), b"xb0001"));
+						cx.line("kv exists 66 786230303031", &a);
+						let ans = fmt_unit(b.commit());
+						cx.sh.commit();
+						cx.line("kv commit", &ans);
+					}
+				}
+				"x-idle-through-resize" => {
+					h_batch(&mut cx, &mut hs, "X", &x, &[(0, None, key("x0"), vec![4u8; 1000])], true, Some(("Z", &z)), &what);
+				}
+				_ => {}
+			}
+			// Y commits until the usage is above the threshold (once more after its own resize in
+			// the idle phase)
+			let passes = if *phase == "x-idle-through-resize" { 2 } else { 1 };
+			for pass in 0..passes {
+				loop {
+					let m = meta_info(&dir).unwrap_or((1, 0, 0));
+					if m.1 * 4096 * 10 > 9 * m.0 || hs.n > 200 {
+						break;
+					}
+					let (mid, db) = match cx.rng.below(3) {
+						0 => (db_id(Some(b'A')), Some(b'A')),
+						1 => (db_id(Some(b'P')), Some(b'P')),
+						_ => (PEER_DEF, None),
+					};
+					let k = key("y");
+					let len = cx.rng.range(40_000, 60_000) as usize;
+					let peek: Option<(&str, &Store)> = if mid == db_id(Some(b'A')) && cx.rng.chance(1, 3) { Some(("X", &x)) } else { None };
+					let byte = hs.n as u8;
+					h_batch(&mut cx, &mut hs, "Y", &y, &[(mid, db, k, vec![byte; len])], true, peek, &what);
+				}
+				if pass + 1 < passes {
+					// Y itself crosses the threshold: its own batch() resizes; X stays idle
+					h_batch(&mut cx, &mut hs, "Y", &y, &[(PEER_DEF, None, key("yr"), vec![9u8; 50_000])], true, None, &what);
+				}
+			}
+			let due = meta_info(&dir).map(|m| m.1 * 4096 * 10 > 9 * m.0).unwrap_or(false);
+			let grown_before = hs.grown;
+			// the other handle writes more than the few percent left
+			let big = |key: &mut dyn FnMut(&str) -> Vec<u8>, mid: u16, db: Db| -> Vec<(u16, Db, Vec<u8>, Vec<u8>)> {
+				(0..3).map(|i| (mid, db, key("big"), vec![0xb0 + i as u8; 40_000])).collect()
+			};
+			let okb = match *phase {
+				"z-first-batch" => {
+					let ws = big(&mut key, db_id(Some(b'A')), Some(b'A'));
+					h_batch(&mut cx, &mut hs, "Z", &z, &ws, true, Some(("Y", &y)), &what)
+				}
+				"late-handle" => {
+					let w = Store::new(&dir, None, Some("late"), vec![b'A'], None, None).expect("late handle");
+					let ws = big(&mut key, db_id(Some(b'A')), Some(b'A'));
+					h_batch(&mut cx, &mut hs, "W", &w, &ws, true, Some(("X", &x)), &what)
+				}
+				_ => {
+					let ws = big(&mut key, 0, None);
+					h_batch(&mut cx, &mut hs, "X", &x, &ws, true, Some(("Z", &z)), &what)
+				}
+			};
+			if !due {
+				cx.out.raw(&format!("#STAT handles:WARNING phase {} did not reach the threshold before the big batch", phase));
+			} else if okb && hs.grown == grown_before {
+				cx.oracle_fail(format!("handles {}: the big batch succeeded but the map was not enlarged although the usage was above the threshold", what));
+			}
+			// all handles alternate through further growth, reading each other's commits
+			let more = if thorough { 60 } else { 30 };
+			for i in 0..more {
+				let len = cx.rng.range(20_000, 60_000) as usize;
+				let k = key("alt");
+				let v = vec![i as u8; len];
+				let xc = cx.rng.chance(4, 5);
+				let okb = match i % 3 {
+					0 => h_batch(&mut cx, &mut hs, "X", &x, &[(db_id(Some(b'A')), Some(b'A'), k, v)], xc, Some(("Y", &y)), &what),
+					1 => h_batch(&mut cx, &mut hs, "Y", &y, &[(db_id(Some(b'A')), Some(b'A'), k, v)], true, Some(("Z", &z)), &what),
+					_ => h_batch(&mut cx, &mut hs, "Z", &z, &[(0, None, k, v)], true, Some(("X", &x)), &what),
+				};
+				if !okb {
+					break;
+				}
+				if i % 10 == 9 {
+					cx.outside_read();
+				}
+			}
+			// full dump through the Cx's own handle (default names) - Y's private databases are read
+			// key by key above; the shared databases must agree
+			{
+				let mut items = vec![];
+				for db in all_dbs() {
+					if let Ok(v) = collect_iter(cx.store().iter(db, kvpair)) {
+						for (k, val) in v {
+							items.push((db_id(db), k, val));
+						}
+					}
+				}
+				for (db, mid) in [(Some(b'P'), db_id(Some(b'P'))), (None, PEER_DEF)] {
+					if let Ok(v) = collect_iter(y.iter(db, kvpair)) {
+						for (k, val) in v {
+							items.push((mid, k, val));
+						}
+					}
+				}
+				items.sort_by(|a, b| (a.0, &a.1).cmp(&(b.0, &b.1)));
+				let ans = dump_fmt(&items);
+				let want = cx.sh.dump();
+				if ans != want {
+					cx.oracle_fail(format!("handles {}: the environment's contents read through the handles differ from the committed batches", what));
+				}
+				cx.line("kv obs", &ans);
+			}
+			summary.push(format!("{}:batches={},resizes={},failed={}", phase, hs.n, hs.grown, hs.failed));
+			cx.out.raw(&format!(
+				"#STAT handles {} round {}: batches {} through handles X/Y/Z(/W); map {} -> {} ({} resizes); due before the big batch {}; big batch ok {}; failed ops {}",
+				phase, round, hs.n, map0, hs.cur_map, hs.grown, due, okb, hs.failed
+			));
+			cx.finish();
+		}
+	}
+	let mut out = Out::stdout();
+	out.raw(&format!("#STAT handles total: {}", summary.join(" ")));
+	out.flush();
+}
+
 fn main() {
 	quiet_panics();
 	let args: Vec<String> = std::env::args().collect();
@@ -4219,6 +4746,8 @@ fn main() {
 		"frag" => mode_frag(&work, seed, thorough),
 		"selfiter" => mode_selfiter(&work, seed, thorough),
 		"growth" => mode_growth(&work, seed, thorough),
+		"inflight" => mode_inflight(&work, seed, thorough),
+		"handles" => mode_handles(&work, seed, thorough),
 		_ => {
 			eprintln!("unknown mode {}", mode);
 			std::process::exit(2);
